@@ -6,6 +6,7 @@ import (
 	"os"
 	"sync"
 	"testing"
+	"time"
 
 	"github.com/weedbox/pokerface/match"
 	sm "github.com/weedbox/pokerface/seat_manager"
@@ -65,7 +66,7 @@ func newTableGlue(max int) *tableGlue {
 func (g *tableGlue) join(seat int, id string) (int, error) {
 	return g.t.Join(seat, &table.PlayerInfo{ID: id, Bankroll: 1000})
 }
-func (g *tableGlue) leave(seat int) error    { return g.t.Leave(seat) }
+func (g *tableGlue) leave(seat int) error { return g.t.Leave(seat) }
 func (g *tableGlue) leaveBatch(seats []int) {
 	for _, s := range seats {
 		g.t.Leave(s)
@@ -200,6 +201,9 @@ func quiet() func() {
 }
 
 func runGlueCase(c *glueCase, facts map[string]bool) (v *vlib.Violation) {
+	vlib.StartWatchdog(90 * time.Second)
+	vlib.Busy()
+	defer vlib.Idle()
 	defer quiet()()
 	var g glue
 	if c.Layer == "match" {
